@@ -692,4 +692,228 @@ Proof.
     destruct Wn as [_ Ln]. destruct (ln_wf _ _ _ _ _ La) as [_ La'].
     rewrite (UnitigSeqUnique.kmers_inj K _ _ HK Ln La' Eks). exact Llen.
 Qed.
+
+Lemma KS_last p q a : wpath p -> p = q ++ [a] -> last (KS p) [] = last_kmer K (nd_seq (onode a)).
+Proof.
+  intros Wp E. unfold KS.
+  etransitivity; [exact (last_flat_map _ p a [] a (wp_ne p Wp) (fun a0 Ha0 => block_ne p a0 Wp Ha0))|]. cbv beta.
+  assert (El : last p a = a) by (rewrite E; apply last_last). rewrite El.
+  apply (block_last p a Wp). rewrite E. apply in_or_app. right. now left.
+Qed.
+Lemma KS_hd p q a : wpath p -> p = a :: q -> hd [] (KS p) = first_kmer K (nd_seq (onode a)).
+Proof.
+  intros Wp E. assert (Ha : In a p) by (rewrite E; now left). unfold KS. rewrite E.
+  etransitivity; [exact (hd_flat_map _ a q [] (block_ne p a Wp Ha))|]. exact (block_hd p a Wp Ha).
+Qed.
+Lemma KS_pair_block p a x y : wpath p -> In a p -> In (x, y) (pairs (kmers K (nd_seq (onode a)))) -> In (x, y) (pairs (KS p)).
+Proof.
+  intros Wp Ha H. unfold KS. apply (in_pairs_flat_map _ p [] x y (fun a0 Ha0 => block_ne p a0 Wp Ha0)). left. eauto.
+Qed.
+Lemma KS_pair_junction p a b : wpath p -> In (a, b) (pairs p) ->
+  In (last_kmer K (nd_seq (onode a)), first_kmer K (nd_seq (onode b))) (pairs (KS p)).
+Proof.
+  intros Wp H. destruct (in_pairs_in p a b H) as [Ha Hb]. unfold KS.
+  apply (in_pairs_flat_map _ p [] _ _ (fun a0 Ha0 => block_ne p a0 Wp Ha0)). right. exists a, b. split; [exact H|].
+  split; [symmetry; exact (block_last p a Wp Ha) | symmetry; exact (block_hd p b Wp Hb)].
+Qed.
+
+(* U3 along a node path, forward: a merge leaving a k-mer of the path is a step of the path, or closes it *)
+Definition rclosed (p : list (nat * dir)) : Prop :=
+  forall x d w t, In x (map fst p) -> rnext pay join K st g1 x d = Some (w, t) -> In w (map fst p).
+Lemma path_max_fwd p x y : wpath p -> rclosed p -> In x (KS p) -> mergeableb st kj SL x y = true ->
+  In (x, y) (pairs (KS p)) \/ (x = last (KS p) [] /\ y = hd [] (KS p)).
+Proof.
+  intros Wp Hmax Hx Hmg. apply in_KS in Hx as (a & Ha & Hx).
+  pose proof (block_lnode p a Wp Ha) as La. destruct (ln_wf _ _ _ _ _ La) as [WA LA].
+  apply kmers_in in Hx as [i [Hi ->]].
+  destruct (Nat.eq_dec (i + K) (length (nd_seq (onode a)))) as [El|El].
+  2:{ left. pose proof (in_combine_tl (kmers K (nd_seq (onode a))) [] i) as Hp. rewrite kmers_len, !kmers_nth in Hp by lia.
+      specialize (Hp ltac:(lia)). fold (pairs (kmers K (nd_seq (onode a)))) in Hp.
+      pose proof (ln_unb _ _ _ _ _ La _ Hp) as Hm2. cbn [fst snd] in Hm2.
+      destruct (mergeable_inv st kj SL _ _ Hmg) as (b & _ & Er & _ & Ey & _).
+      destruct (mergeable_inv st kj SL _ _ Hm2) as (b' & _ & Er' & _ & Ey' & _).
+      assert (b' = b) by congruence. subst b'. rewrite Ey, <- Ey'. exact (KS_pair_block p a _ _ Wp Ha Hp). }
+  assert (Ex : kmer_at K (nd_seq (onode a)) i = last_kmer K (nd_seq (onode a))) by (unfold last_kmer; f_equal; lia).
+  rewrite Ex in *. destruct (nth_of_id (fst a) (wp_id p Wp a Ha)) as [n0 Hn0].
+  destruct (merge_rnext a n0 y Hn0 (fun E => wp_st p Wp E a Ha) Hmg) as (u & t & R & Ey & Hst').
+  destruct a as [v d]. cbn [fst snd] in *. set (s := dflip d) in *.
+  assert (Hno : ~ In (v, s) p).
+  { intro H. pose proof (nodup_fst_dir p v s d (wp_nodup p Wp) H Ha) as E. unfold s in E. destruct d; discriminate. }
+  destruct (uses_or_ext p v d s Ha) as [Hu|He].
+  - destruct Hu as (q1 & q2 & u0 & [Hu|Hu]).
+    + exfalso. apply Hno. rewrite Hu. apply in_or_app. right. right. now left.
+    + unfold s in Hu. rewrite dflip_dflip in Hu. left.
+      pose proof (wp_linked p Wp) as L. rewrite Hu in L. apply Linked_mid, step_ok_inv in L. destruct L as [L _]. cbn [fst snd] in L.
+      fold s in L. rewrite R in L. injection L as <-. rewrite <- Ey. apply KS_pair_junction; [exact Wp|]. rewrite Hu. apply in_pairs_mid.
+  - destruct He as [[q He]|[q He]]; [exfalso; apply Hno; rewrite He; now left|]. unfold s in He. rewrite dflip_dflip in He.
+    assert (Hu : In u (map fst p)).
+    { apply (Hmax v s u t); [change v with (fst (v, d)); now apply in_map | exact R]. }
+    apply in_map_iff in Hu as [[u' tu] [Eu Hu]]. cbn [fst] in Eu. subst u'.
+    assert (Rs : rnext pay join K st g1 u t = Some (v, s)).
+    { apply (rnext_sym pay join K st (E2eGraph.join_sym mode) g1 (seq 0 (length g1)) v s u t g1_winv); [|exact R].
+      apply in_seq. pose proof (wp_id p Wp (v, d) Ha) as H. cbn [fst] in H. unfold graph, gnode, node_t in *. lia. }
+    destruct (uses_or_ext p u tu t Hu) as [Hu2|He2].
+    + exfalso. destruct (uses_rnext pay join K st g1 p u t (wp_linked p Wp) Hu2) as (w & tw & R1 & _ & Hu3).
+      rewrite Rs in R1. injection R1 as <- <-.
+      apply (uses_not_ext p v s (wp_nodup p Wp) Hu3). right. exists q. unfold s. now rewrite dflip_dflip.
+    + right. destruct He2 as [[q' He2]|[q' He2]].
+      * split; [symmetry; exact (KS_last p q (v, d) Wp He) | rewrite (KS_hd p q' (u, t) Wp He2); now symmetry].
+      * exfalso. rewrite He in He2. apply app_inj_tail in He2 as [_ E2]. injection E2 as -> E2.
+        assert (Et : t = s) by (unfold s; rewrite E2; now rewrite dflip_dflip).
+        assert (Hs : st = false).
+        { destruct (Bool.bool_dec st true) as [Est|Est]; [exfalso | now apply not_true_is_false].
+          specialize (Hst' Est). pose proof (wp_st p Wp Est (u, d) Ha) as Hd. cbn [snd] in Hd.
+          rewrite Et in Hst'. unfold s in Hst'. rewrite Hd in Hst'. discriminate. }
+        destruct (mergeable_inv st kj SL _ _ Hmg) as (_ & _ & _ & _ & _ & _ & _ & Hne & _). apply Hne.
+        rewrite <- Ey, Et. rewrite (exit_kmer (u, d) n0 Hn0), (entry_kmer (u, s) n0 Hn0). cbn [fst snd]. fold s.
+        destruct (term_facts n0 s (node_in u n0 Hn0)) as (_ & WX & _).
+        rewrite !cn_osq; auto; intro E; congruence.
+Qed.
+
+(* ---- the same path walked backwards ---- *)
+Definition rpath (p : list (nat * dir)) : list (nat * dir) := rev (map flipc p).
+Lemma onode_flipc a : fst a < length g1 -> nd_seq (onode (flipc a)) = rc (nd_seq (onode a)).
+Proof.
+  intro H. destruct (nth_of_id (fst a) H) as [n Hn]. rewrite (onode_seq a n Hn), (onode_seq (flipc a) n Hn).
+  unfold flipc. cbn [snd]. destruct (snd a); cbn [dflip osq]; [reflexivity|]. symmetry. apply ListFacts.rc_involutive.
+  apply (nwf K g1 Hwf n (node_in _ n Hn)).
+Qed.
+Lemma KS_rpath p : (forall a, In a p -> fst a < length g1) -> KS (rpath p) = rev (map rc (KS p)).
+Proof.
+  unfold rpath, KS. induction p as [|a p IH]; intro Hid; [reflexivity|]. cbn [map rev flat_map].
+  rewrite flat_map_app, IH by (intros b Hb; apply Hid; now right). cbn [flat_map]. rewrite app_nil_r.
+  rewrite (onode_flipc a (Hid a (or_introl eq_refl))), RecompKmers.kmers_rc, map_app, rev_app_distr. reflexivity.
+Qed.
+Lemma opt_nd_eqb_refl a : opt_nd_eqb (Some a) (Some a) = true.
+Proof. destruct a as [x d]. cbn. rewrite Nat.eqb_refl. now destruct d. Qed.
+Lemma step_ok_flip a b : RecompCheck.step_ok pay join K st g1 a b = true -> RecompCheck.step_ok pay join K st g1 (flipc b) (flipc a) = true.
+Proof.
+  intro H. destruct (step_ok_inv pay join K st g1 a b H) as [R1 R2]. pose proof (step_ok_ne a b H) as Hne.
+  unfold RecompCheck.step_ok, flipc. cbn [fst snd]. rewrite !dflip_dflip, R1, R2.
+  destruct b as [u t]. cbn [fst snd]. rewrite !opt_nd_eqb_refl. cbn [andb]. apply negb_true_iff, Nat.eqb_neq. cbn [fst] in Hne. congruence.
+Qed.
+Lemma Linked_rpath p : Linked pay join K st g1 p -> Linked pay join K st g1 (rpath p).
+Proof.
+  unfold Linked, rpath. intro H. rewrite Forall_forall in *. intros [x y] Hxy. fold (pairs (rev (map flipc p))) in Hxy.
+  apply (proj1 (pairs_rev _ _ _)) in Hxy. rewrite pairs_map in Hxy. apply in_map_iff in Hxy as [[a b] [E Hab]]. cbn [fst snd] in E. injection E as <- <-.
+  cbn [fst snd]. apply step_ok_flip. exact (H (a, b) Hab).
+Qed.
+Lemma rpath_fst p : map fst (rpath p) = rev (map fst p).
+Proof. unfold rpath. rewrite map_rev, map_map. reflexivity. Qed.
+Lemma wpath_rpath p : st = false -> wpath p -> wpath (rpath p).
+Proof.
+  intros Hs [A1 A2 A3 A4 A5]. constructor.
+  - intros a Ha. unfold rpath in Ha. apply in_rev, in_map_iff in Ha as [b [<- Hb]]. cbn [flipc fst]. now apply A1.
+  - now apply Linked_rpath.
+  - intro E. congruence.
+  - rewrite rpath_fst. now apply NoDup_rev.
+  - unfold rpath. intro E. apply (f_equal (@length _)) in E. rewrite rev_length, map_length in E. destruct p; [congruence | discriminate].
+Qed.
+Lemma rclosed_rpath p : rclosed p -> rclosed (rpath p).
+Proof. unfold rclosed. intros H x d w t Hx R. rewrite rpath_fst in *. apply in_rev in Hx. apply -> in_rev. exact (H x d w t Hx R). Qed.
+
+(* U3 along a node path, for the reverse complement of a k-mer of the path *)
+Lemma path_max_bwd p x y : st = false -> wpath p -> rclosed p -> In (rc x) (KS p) -> wf_dna x -> mergeableb st kj SL x y = true ->
+  In (rc y, rc x) (pairs (KS p)) \/ (rc x = hd [] (KS p) /\ rc y = last (KS p) []).
+Proof.
+  intros Hs Wp Hmax Hx Wx Hmg. pose proof (wpath_rpath p Hs Wp) as Wr.
+  assert (Hx' : In x (KS (rpath p))).
+  { rewrite (KS_rpath p (wp_id p Wp)). apply -> in_rev. apply in_map_iff. exists (rc x). split; [now apply ListFacts.rc_involutive | exact Hx]. }
+  assert (Wks : forall z, In z (KS p) -> wf_dna z).
+  { intros z Hz. apply in_KS in Hz as (a & Ha & Hz). eapply kmers_wf; [|exact Hz]. exact (proj1 (ln_wf _ _ _ _ _ (block_lnode p a Wp Ha))). }
+  destruct (path_max_fwd (rpath p) x y Wr (rclosed_rpath p Hmax) Hx' Hmg) as [H|[H1 H2]].
+  - left. rewrite (KS_rpath p (wp_id p Wp)) in H. apply (proj1 (pairs_rev _ _ _)) in H. rewrite pairs_map in H. apply in_map_iff in H as [[a b] [E Hab]].
+    cbn [fst snd] in E. injection E as <- <-. destruct (in_pairs_in _ _ _ Hab) as [Ha Hb].
+    rewrite !ListFacts.rc_involutive by auto. exact Hab.
+  - right. rewrite (KS_rpath p (wp_id p Wp)) in H1, H2.
+    assert (Hne : KS p <> []) by (apply flat_map_ne; [exact (wp_ne p Wp) | intros a Ha; exact (block_ne p a Wp Ha)]).
+    destruct (KS p) as [|k0 ks] eqn:Ek; [congruence|]. split.
+    + rewrite H1. cbn [map rev]. rewrite last_last. cbn [hd]. apply ListFacts.rc_involutive. apply Wks. now left.
+    + rewrite H2. destruct (exists_last (l := k0 :: ks)) as (q & z & Eq); [discriminate|]. rewrite Eq, map_app, rev_app_distr. cbn [map rev app hd].
+      rewrite last_last. apply ListFacts.rc_involutive. apply Wks. rewrite Eq. apply in_or_app. right. now left.
+Qed.
+
+(* ---- payloads ---- *)
+Definition idsv (v : nat) : list N := match nth_error g1 v with Some m => nd_ids m | None => [] end.
+Definition colv (v : nat) : N := match nth_error g1 v with Some m => nd_colour m | None => 0%N end.
+Definition nkv (v : nat) : list dna := match nth_error g1 v with Some m => PipelineCheck.node_kmers K st m | None => [] end.
+
+Lemma datas_ids vs : forall ds, datas pay g1 vs = Some ds -> concat (map snd ds) = flat_map idsv vs.
+Proof.
+  induction vs as [|v vs IH]; intros ds H; cbn [datas] in H; [injection H as <-; reflexivity|].
+  cbn [flat_map].
+  destruct (@nth_error (gnode pay) g1 v) as [m|] eqn:Em; [|discriminate]. destruct (datas pay g1 vs) as [t|]; [|discriminate].
+  injection H as <-. cbn [map concat]. rewrite (IH t eq_refl). f_equal. unfold idsv. unfold graph, gnode, node_t in *. now rewrite Em.
+Qed.
+Lemma flat_map_perm_pw {A B} (f h : A -> list B) l : (forall a, In a l -> Permutation (f a) (h a)) -> Permutation (flat_map f l) (flat_map h l).
+Proof.
+  induction l as [|a l IH]; intro H; [constructor|]. cbn [flat_map]. apply Permutation_app; [apply H; now left | apply IH; intros b Hb; apply H; now right].
+Qed.
+Lemma block_perm a (n' : node_t) : nth_error g1 (fst a) = Some n' -> (st = true -> snd a = DLeft) ->
+  Permutation (map (cn st) (kmers K (nd_seq (onode a)))) (PipelineCheck.node_kmers K st n').
+Proof.
+  intros Hn Hs. rewrite (onode_seq a n' Hn). unfold PipelineCheck.node_kmers. destruct (snd a) eqn:E; cbn [osq]; [reflexivity|].
+  assert (Hst : st = false) by (destruct (Bool.bool_dec st true) as [H|H]; [specialize (Hs H); discriminate | now apply not_true_is_false]).
+  rewrite RecompKmers.kmers_rc, map_rev, map_map. rewrite <- Permutation_rev.
+  rewrite (map_ext_in (fun x => cn st (rc x)) (cn st)); [reflexivity|]. intros x Hx. apply cn_rc_; auto.
+  eapply kmers_wf; [apply (nwf K g1 Hwf n' (node_in _ n' Hn)) | exact Hx].
+Qed.
+Lemma nkv_perm p : wpath p -> Permutation (map (cn st) (KS p)) (flat_map nkv (map fst p)).
+Proof.
+  intro Wp. unfold KS. rewrite <- flat_map_map_out, flat_map_map'. apply flat_map_perm_pw. intros a Ha.
+  destruct (nth_of_id (fst a) (wp_id p Wp a Ha)) as [n' Hn']. unfold nkv. rewrite Hn'.
+  apply (block_perm a n' Hn'). intro E. exact (wp_st p Wp E a Ha).
+Qed.
+Lemma path_colour p : wpath p -> mode <> 0%N -> forall a b, In a p -> In b p -> colv (fst a) = colv (fst b).
+Proof.
+  intros Wp Hm. pose proof (wp_linked p Wp) as L. clear Wp.
+  assert (G : forall q, Linked pay join K st g1 q -> forall a b, In a q -> In b q -> colv (fst a) = colv (fst b)).
+  { induction q as [|a q IH]; intros Lq x y Hx Hy; [destruct Hx|]. destruct q as [|b q].
+    - destruct Hx as [<-|[]], Hy as [<-|[]]. reflexivity.
+    - apply (Linked_cons2 pay join K st) in Lq as [Hs Lq].
+      assert (Hab : colv (fst a) = colv (fst b)).
+      { destruct (step_ok_inv pay join K st g1 a b Hs) as [R _]. destruct b as [u t].
+        destruct (rnext_inv pay join K st g1 _ _ _ _ R) as (n' & _ & _ & m' & Hn' & _ & _ & _ & _ & Hm' & _ & Hj & _).
+        unfold colv. cbn [fst]. unfold graph, gnode, node_t in *. rewrite Hn', Hm'. unfold pay_join in Hj.
+        destruct (mode =? 0)%N eqn:E; [apply N.eqb_eq in E; contradiction|]. now apply N.eqb_eq in Hj. }
+      assert (Hq : forall z, In z (b :: q) -> colv (fst z) = colv (fst a)).
+      { intros z Hz. rewrite Hab. apply (IH Lq); [exact Hz | now left]. }
+      destruct Hx as [<-|Hx], Hy as [<-|Hy]; [reflexivity | symmetry; auto | auto | now rewrite (Hq x Hx), (Hq y Hy)]. }
+  exact (G p L).
+Qed.
+
+Lemma op_payload n p lp seed rp sd0 ds : opath n p -> p = assemble lp seed rp ->
+  option_map (n_data pay) (nth_error g1 seed) = Some sd0 -> datas pay g1 (verts nat lp ++ verts nat rp) = Some ds ->
+  snd n = fold_left pay_reduce ds sd0 ->
+  Permutation (nd_ids n) (map idf (PipelineCheck.node_kmers K st n)) /\
+  (mode <> 0%N -> forall k, In k (PipelineCheck.node_kmers K st n) -> colf k = nd_colour n) /\
+  (mode = 0%N -> exists k, In k (PipelineCheck.node_kmers K st n) /\ colf k = nd_colour n).
+Proof.
+  intros O Ep Hsd Hds Hd. pose proof (op_w n p O) as Wp. destruct (op_ks n p O) as [Eks _].
+  assert (Hseed : In (seed, DLeft) p) by (rewrite Ep; unfold assemble; apply in_or_app; right; now left).
+  destruct (nth_of_id seed (wp_id p Wp _ Hseed)) as [ns Hns]. pose proof (node_in seed ns Hns) as Hins.
+  assert (Esd : sd0 = snd ns).
+  { unfold graph, gnode, node_t in *. rewrite Hns in Hsd. cbn in Hsd. now injection Hsd as <-. }
+  assert (Pk : Permutation (PipelineCheck.node_kmers K st n) (flat_map nkv (map fst p))).
+  { unfold PipelineCheck.node_kmers. rewrite Eks. now apply nkv_perm. }
+  assert (Hnd' : snd n = (fst (snd ns), idsv seed ++ flat_map idsv (verts nat lp ++ verts nat rp))).
+  { assert (Eids : idsv seed = snd (snd ns)) by (unfold idsv; now rewrite Hns).
+    rewrite Hd, fold_pay, (datas_ids _ ds Hds), Esd, Eids. reflexivity. }
+  assert (Hin_nk : forall v k, In v (map fst p) -> In k (nkv v) -> In k (PipelineCheck.node_kmers K st n)).
+  { intros v k Hv0 Hk. eapply Permutation_in; [symmetry; exact Pk|]. apply in_flat_map. eauto. }
+  unfold nd_ids, nd_colour. rewrite Hnd'. cbn [fst snd]. split; [|split].
+  - transitivity (flat_map idsv (map fst p)).
+    + change (idsv seed ++ flat_map idsv (verts nat lp ++ verts nat rp)) with (flat_map idsv (seed :: verts nat lp ++ verts nat rp)).
+      apply UnitigUnique.perm_concat_map. rewrite Ep, assemble_verts. unfold node_verts.
+      rewrite Permutation_middle. apply Permutation_app_tail. apply Permutation_rev.
+    + rewrite (Permutation_map idf Pk), <- flat_map_map_out. apply flat_map_perm_pw. intros v Hv0.
+      apply in_map_iff in Hv0 as [a [<- Ha]]. destruct (nth_of_id (fst a) (wp_id p Wp a Ha)) as [m Hm].
+      unfold idsv, nkv. rewrite Hm. exact (proj1 (Hpay m (node_in _ m Hm))).
+  - intros Hm k Hk. apply (Permutation_in _ Pk) in Hk. apply in_flat_map in Hk as [v [Hv0 Hk]].
+    apply in_map_iff in Hv0 as [a [<- Ha]]. destruct (nth_of_id (fst a) (wp_id p Wp a Ha)) as [m Hma].
+    unfold nkv in Hk. rewrite Hma in Hk. destruct (Hpay m (node_in _ m Hma)) as (_ & C & _). rewrite (C Hm k Hk).
+    pose proof (path_colour p Wp Hm a (seed, DLeft) Ha Hseed) as E. unfold colv in E. cbn [fst] in E. rewrite Hma, Hns in E. exact E.
+  - intros Hm. destruct (Hpay ns Hins) as (_ & _ & C). destruct (C Hm) as (k & Hk & Ek). exists k. split; [|exact Ek].
+    apply (Hin_nk seed k); [change seed with (fst (seed, DLeft)); now apply in_map | unfold nkv; now rewrite Hns].
+Qed.
 End Main.
